@@ -22,6 +22,7 @@ RULE = ("topo: every digraph on <=3 (quick) / <=4 (thorough) labelled nodes incl
         "resolver-history: every history of add_node / add_dependency / resolve_build_order of length <=5 (thorough 6) on one resolver over two nodes sharing a name, <=3 (4) over three, "
         "plus random histories over up to 9 nodes whose (name, path, kind) identities collide on the name; graph-history: every history of add_dependency / add_dependencies / "
         "topological_sort_types of length <=3 (4) over two names plus random ones over up to 9 names, interleaved with add_resolved_type (is_enum true / false) and add_type_definition; "
+        "size thresholds (streams *-size, topo-huge): complete digraphs with and without self-loops on 8-24 (thorough -40) nodes, dense random graphs on 13-26 nodes, 150-600 (thorough -1500) self-recursive / pairwise recursive types flat and under one root, chains of recursive types, two-way chains, all-back-to-root and long cycles of 60-110 nodes with the oracle and 300-700 (thorough -2000) judged through the model alone; for the resolver transitive tournaments, complete digraphs, stars, isolated nodes and self-loops up to 600 (1500) nodes; both history streams build such graphs on one object, sort / resolve, extend and sort / resolve again; every sort runs in a child process on a 64 MB stack, a death or stall of which is outcome PANIC for the case in flight; "
         "node labels include module-qualified spellings (a::T<k>, b::T<k>) sharing their last segment with plain labels; node paths are drawn from spellings of the same file (backslashes, ./ prefix, doubled slash, case, empty). A case is non-trivial when it has at least "
         "one edge; distinct = distinct (graph, request) pairs")
 TRUSTED = ["Spec/P20.v boolean checkers are the run-time oracle applied to the implementation's answers; proved equivalent to the Prop statements (C20_topo_oracle_exact, C20_kahn_oracle_exact)"]
@@ -416,14 +417,59 @@ def prep_kahn(cases):
     return cases
 
 
+def corpus_items():
+    """corpus/C20/*.json: minimised past misses, {"stream": ..., "case": ...}, replayed first"""
+    import glob
+    import json
+    import os
+    items = []
+    for path in sorted(glob.glob(os.path.join(vlib.VERIF, "corpus", "C20", "*.json"))):
+        with open(path) as f:
+            it = json.load(f)
+        it["file"] = os.path.basename(path)
+        items.append(it)
+    return items
+
+
+def eval_stream(stream, cases):
+    from tools.props import c20_size
+    base = stream.replace("corpus-", "")
+    if base in ("topo", "topo-size"):
+        return eval_topo(cases)
+    if base == "topo-huge":
+        return c20_size.eval_topo_huge(cases)
+    if base in ("resolver-history", "resolver-history-size"):
+        return eval_hist(cases)
+    if base in ("graph-history", "graph-history-size"):
+        return eval_ghist(cases)
+    return eval_kahn(prep_kahn(cases))
+
+
 def run(rep):
+    from tools.props import c20_size
     vlib.build_harness("c20")
     vlib.build_runner("c20")
+    # corpus first (one harness process per case: a case that kills the process costs no other case)
+    for i, it in enumerate(corpus_items()):
+        c = dict(it["case"])
+        c["id"] = i
+        c.setdefault("reps", 2)
+        rep.add("corpus-" + it["stream"], eval_stream(it["stream"], [c]), sample_count=1)
     rng = random.Random(rep.seed)
     rep.add("topo", eval_topo(topo_cases(rep.tier, rng)))
     rep.add("kahn", eval_kahn(prep_kahn(kahn_cases(rep.tier, rng))))
     rep.add("resolver-history", eval_hist(hist_cases(rep.tier, rng)))
     rep.add("graph-history", eval_ghist(ghist_cases(rep.tier, rng)))
+    # size thresholds (tools/props/c20_size.py): large and dense graphs, in streams of their own so that a
+    # process death on one of them (at most 3 per shard are retried) never shadows a small-scope case
+    rng2 = random.Random(rep.seed * 7919 + 20)
+    tc = c20_size.topo_size_cases(rep.tier, rng2)
+    rep.extra["topo_size_back_edges_per_sort"] = c20_size.histogram(tc)
+    rep.add("topo-size", eval_topo(tc))
+    rep.add("topo-huge", c20_size.eval_topo_huge(c20_size.topo_huge_cases(rep.tier, rng2)))
+    rep.add("kahn-size", eval_kahn(prep_kahn(c20_size.kahn_size_cases(rep.tier, rng2))))
+    rep.add("graph-history-size", eval_ghist(c20_size.ghist_size_cases(rep.tier, rng2)))
+    rep.add("resolver-history-size", eval_hist(c20_size.hist_size_cases(rep.tier, rng2)))
 
 
 def replay(rep, payload):
@@ -434,11 +480,5 @@ def replay(rep, payload):
         c = dict(it["case"])
         c["id"] = i
         c["reps"] = 16
-        if it["stream"] == "topo":
-            rep.add("topo", eval_topo([c]))
-        elif it["stream"] == "resolver-history":
-            rep.add("resolver-history", eval_hist([c]))
-        elif it["stream"] == "graph-history":
-            rep.add("graph-history", eval_ghist([c]))
-        else:
-            rep.add("kahn", eval_kahn(prep_kahn([c])))
+        st = it["stream"].replace("corpus-", "")
+        rep.add(st, eval_stream(st, [c]))
